@@ -1,7 +1,9 @@
 /-
 Oracle for C12.  Case lines (first token):
 
-`api side=client|server suite=gcm|cbc ops=<op>,…`  =>  `res=<r>,…` (one per API call)
+`api side=client|server suite=gcm|cbc [seg=all] ops=<op>,…`  =>  `res=<r>,…` (one per API call)
+    `seg=all`: a transport read of the unit returns everything the transport holds (records the
+    peer wrote back to back arrive together); default: one record per transport read
 `cancel side=… k=<n> ops=<op>,…`  =>  `res=<handshake result>,<r>,… fired=0|1`
 `early side=… j=<n> len=<n> injected=0|1 first=0|1 afterccs=0|1`  =>  `res=<handshake result>,<R8>,<H>,<W1>`
 
@@ -73,6 +75,7 @@ def showErr : ApiErr → String
   | .earlyCloseWrite => "early_cw" | .remoteAlert a => s!"remote.{a}" | .localAlert a => s!"local.{a}"
   | .recordHeader => "hdr" | .tooManyIgnored => "toomany" | .ctxCanceled => "ctx"
   | .transportTemp => "timeout" | .transportPerm => "perm" | .handshakeFailed t => s!"hsfail.{t}" | .internal => "other"
+  | .block => "block"
 
 def showRes (isRead : Bool) : Res → Option String
   | .ok d => some (if isRead && !d.isEmpty then s!"ok.{Hex.encode d}" else "ok")
@@ -98,7 +101,8 @@ open Spec.ConnAPI in
 def specSteps (suite : String) : List (Nat × String) → List String → List Step
   | [], _ => []
   | (idx, op) :: ops, obs =>
-    if op.startsWith "PR" then specSteps suite ops obs else
+    -- the peer's application reads: it may answer what this side wrote with an alert
+    if op.startsWith "PR" then .other :: specSteps suite ops obs else
     let isCall := op == "C" || op == "CW" || op == "H" || op.startsWith "R" || op.startsWith "W"
     if isCall then
       match obs with
@@ -130,6 +134,8 @@ def specSteps (suite : String) : List (Nat × String) → List String → List S
             let k := k.toNat?.getD 0
             if k == 0 then .transportEnd false else if k < wireLen suite n then .transportEnd true else .other
           | _ => .other
+        | ['t', 't'] => .benign
+        | 'w' :: 'f' :: _ => .benign
         | _ => .other
       -- a complete record followed by EOF: data, then a clean end
       let extra : List Step :=
@@ -143,27 +149,51 @@ def specSteps (suite : String) : List (Nat × String) → List String → List S
         | _ => []
       (if extra.isEmpty then [st] else extra) ++ specSteps suite ops obs
 
-/-- does a `Close` / `CloseWrite` follow a failed `Write`?  (`closeNotify` seals its alert with the
-next sequence number although the failed record never reached the peer — as crypto/tls does; the
-peer then reports bad_record_mac instead of a truncated stream.  Reported as a note, see F39.) -/
-def closeAfterFailedWrite : List String → List String → Bool → Bool
+/-- does this side seal another record after a record it had sealed was lost at the transport?
+A failed `Write`, or a `CloseWrite` / `Close` whose close_notify the transport refused, has consumed
+a sequence number; `closeNotify` (Close / CloseWrite) and `sendAlert` (a `Read` that answers bad
+input with an alert: result `local.N`) still seal their alert with the next one — as crypto/tls
+does; the peer then reports bad_record_mac instead of a truncated stream / the alert.  Reported as
+a note, see F39. -/
+def sealAfterLostRecord : List String → List String → Bool → Bool
   | [], _, _ => false
-  | op :: ops, obs, failed =>
+  | op :: ops, obs, lost =>
     let isCall := op == "C" || op == "CW" || op == "H" || (op.startsWith "R" ) || (op.startsWith "W")
-    if op.startsWith "PR" || !isCall then closeAfterFailedWrite ops obs failed else
+    if op.startsWith "PR" || !isCall then sealAfterLostRecord ops obs lost else
     match obs with
     | [] => false
     | o :: obs' =>
-      if (op == "C" || op == "CW") && failed then true
-      else closeAfterFailedWrite ops obs' (failed || (op.startsWith "W" && o != "ok"))
+      let sendsAlert := op.startsWith "R" && ((o.splitOn "local.").length > 1)
+      if (op == "C" || op == "CW" || sendsAlert) && lost then true
+      else sealAfterLostRecord ops obs' (lost || (op.startsWith "W" && o != "ok") ||
+        ((op == "C" || op == "CW") && (o == "timeout" || o == "perm")))
 
 def parseOps (s : String) : List String := if s == "-" || s == "" then [] else s.splitOn ","
+
+/-- The peer's application reads (`PR`) are the environment's doing; what they returned is part of
+the observation.  The first of them that fails with a local alert N (`local.N`: the peer could not
+authenticate what this side sent, …) has made the peer send that fatal alert to the unit — an
+arrival the model has to be told about.  Returns, per op, the extra transport events. -/
+def peerAlerts : List String → List String → Bool → List (List Call)
+  | [], _, _ => []
+  | op :: ops, pobs, sent =>
+    if op.startsWith "PR" then
+      match pobs with
+      | [] => [] :: peerAlerts ops [] sent
+      | p :: pobs' =>
+        match (p.splitOn "local.") with
+        | [_, n] =>
+          if sent then [] :: peerAlerts ops pobs' sent
+          else [.arrive (.record ⟨21, vers, [2, UInt8.ofNat (n.toNat?.getD 0)]⟩)] :: peerAlerts ops pobs' true
+        | _ => [] :: peerAlerts ops pobs' sent
+    else [] :: peerAlerts ops pobs sent
 
 def judgeAPI (ct ot : List String) : Option Verdict := do
   let suite := (kv ct "suite").getD "gcm"
   let ops := parseOps ((kv ct "ops").getD "-")
-  let calls ← (ops.zipIdx.mapM fun (op, i) => parseOp suite i op)
-  let c0 : Conn := { hsDone := true }
+  let calls0 ← (ops.zipIdx.mapM fun (op, i) => parseOp suite i op)
+  let calls := (calls0.zip (peerAlerts ops (parseOps ((kv ot "peer").getD "-")) false)).map fun (a, b) => a ++ b
+  let c0 : Conn := { hsDone := true, seg := if kv ct "seg" == some "all" then .all else .record }
   let outs := runModel c0 calls.flatten
   -- what the peer's application read (`PR` ops) is not modelled: echoed, judged by the spec only
   let peerTok := match kv ot "peer" with | some p => s!" peer={p}" | none => ""
@@ -175,7 +205,7 @@ def judgeAPI (ct ot : List String) : Option Verdict := do
   -- fail with a local alert
   let peerObs := parseOps ((kv ot "peer").getD "-")
   let partial_ := ops.any (· == "wfh")
-  let cnAfter := closeAfterFailedWrite ops obs false
+  let cnAfter := sealAfterLostRecord ops obs false
   let desyncSeen := peerObs.any (·.startsWith "local.")
   let desync := !partial_ && !cnAfter && desyncSeen
   let spec := if (kv ot "panic").isSome then some ("panic", "a call panicked")
